@@ -152,12 +152,17 @@ func (rq *retries) Add(obj any, rev statedb.Revision, origRev statedb.Revision, 
 			numRetries: 0,
 			index:      -1,
 			revIndex:   -1,
+			origRev:    origRev,
 		}
 		rq.items[keyStr] = item
 	}
+	// An item that is already known is a retry that failed again. Keep the
+	// revision of the change that originally failed: the object's revision
+	// moves forward with every error status we commit for it and the retry
+	// low watermark must not follow that, as it would pass the revision
+	// of a change that is still failing.
 	item.object = obj
 	item.rev = rev
-	item.origRev = origRev
 	item.delete = delete
 	item.numRetries += 1
 	item.lastError = lastError
